@@ -132,6 +132,17 @@ def run(c):
         hs += histories_exhaustive(c, 3, small=True)
         hs += histories_simulated(c, 5, 3000) + histories_simulated(c, 9, 2000)
         hs += random_histories(c, 2000, 50)
+    # list-valued queries with the scratch list in another order than the database holds the entries; list-level appends through both spellings
+    A_ = lambda t_, o, d: {"op": "append", "t": t_, "o": o, "d": d}
+    LN_ = lambda t_: {"op": "listnew", "t": t_, "o": "-", "d": "-"}
+    LA_ = lambda o, d: {"op": "listappend", "t": "-", "o": o, "d": d}
+    LQ_ = {"op": "listquerydb", "t": "-", "o": "-", "d": "-"}
+    AL_ = {"op": "appendlist", "t": "-", "o": "-", "d": "-"}
+    for pad in ([], [{"op": "query", "t": "sha256", "o": "o1", "d": "h1"}]):       # (the padding shifts which spelling of list-append each step uses)
+        hs.append(pad + [A_("sha256", "o1", "h1"), A_("sha256", "o2", "h2"), A_("sha256", "o1", "h2"), LN_("sha256"), LA_("o1", "h2"), LQ_, LA_("o1", "h1"), LQ_, LA_("o2", "h2"), LQ_,
+                         {"op": "remove", "t": "sha256", "o": "o1", "d": "h1"}, LQ_, A_("sha256", "o1", "h1"), LQ_])
+        hs.append(pad + [LN_("x509"), LA_("o1", "c1"), LA_("o2", "c3"), LA_("o2", "p1"), LA_("o1", "p1"), LA_("o2", "c2"), AL_, {"op": "recode", "t": "-", "o": "-", "d": "-"},
+                         LN_("sha256"), LA_("o1", "h1"), LA_("o1", "h31"), LA_("o1", "h1"), AL_, {"op": "recode", "t": "-", "o": "-", "d": "-"}])
     # histories that start from a decoded database (MC_SigDb!MCPresets)
     hl = histories_exhaustive(c, 2, load=True)
     if c.quick:
